@@ -136,6 +136,20 @@ Definition P06 (c : config) (r : request) (w : world) (o o0 : obs) : bool :=
   (* no near-miss: when no dimension matches exactly, exemptions change nothing *)
   && imp (negb (any_dimension_matches c r)) (resp_eqb resp (fst o0) && Nat.eqb (count_ev is_mexempt (snd o)) 0).
 
+(** "An exempt request is always allowed and never evaluated": when the request's
+    namespace or user matches exactly, a pod request (outside the ignored
+    subresources) or controller request (without subresource) is allowed, marked,
+    and unevaluated whatever its dependencies answer.  (The runtime-class
+    dimension is consulted only once the pod is decoded - remark R3 - and is
+    covered by P06.) *)
+Definition P06_always_allowed (c : config) (r : request) (o : obs) : bool :=
+  if is_namespaces r then true else
+  if (is_pods r && s_ignored_sub (r_subresource r)) || (is_controller r && negb (String.eqb (r_subresource r) ""))
+  then true else
+  imp (s_exempt (r_namespace r) (cf_ex_namespaces c) || s_exempt (r_user r) (cf_ex_users c))
+      (rs_allowed (fst o) && is_some (ann "exempt" (fst o)) && negb (has_eval (snd o))
+       && is_nil (filter (fun e => match e with EvNsLookup | EvDecode | EvDecodeOld => true | _ => false end) (snd o))).
+
 (** dry runs skip exactly the pods with an exempt runtime class (no cap, no expiry in force) *)
 Definition P06_dryrun (c : config) (w : world) (o : obs) : bool :=
   match w_pods w with
@@ -219,6 +233,21 @@ Definition P07 (c : config) (ev : evaluator) (r : request) (w : world) (o : obs)
         end
     | _ => true
     end.
+
+(** "cancellation, or running out of time during a namespace update never blocks
+    the update and is reported as a warning": when the context expires after pod
+    #k and pods remain unchecked, the update is allowed and a warning says so *)
+Definition P07_expiry_reported (c : config) (r : request) (w : world) (o : obs) : bool :=
+  if negb (is_namespaces r) then true else
+  match w_pods w, w_expire_after w with
+  | Some pods, Some k =>
+      imp (existsb is_list (snd o)
+           && Nat.ltb (S k) (List.length (firstn (cf_max_pods c) (filter (fun p => negb (s_exempt_rc c p)) pods))))
+          (rs_allowed (fst o)
+           && existsb (has_prefix "new PodSecurity enforce level only checked against the first ") (rs_warnings (fst o))
+           && Nat.eqb (List.length (eval_events (snd o))) (S k))
+  | _, _ => true
+  end.
 
 (* ---------------------------------------------------------------- P_08 *)
 (** the pod (or template) a request evaluates, with the labels of its namespace, and whether enforce applies *)
